@@ -1146,6 +1146,19 @@ var rKeyMarker = &Rule{
 				}
 				_, isConst := v.(*ssa.Const)
 				ok := isConst || len(recvFieldPath(fn, v)) >= 1
+				// an unexported accessor of the same receiver that returns the field (converted)
+				if call, isCall := v.(*ssa.Call); !ok && isCall {
+					if h := sx.Callee(call); h != nil && h.Blocks != nil && h.Pkg == fn.Pkg && !sx.Exported(h) && len(call.Call.Args) == 1 && len(fn.Params) > 0 && identity(call.Call.Args[0]) == ssa.Value(fn.Params[0]) {
+						all := true
+						rets := sx.Returns(h)
+						for _, hr := range rets {
+							if len(hr.Results) != 1 || !verbatimOfField(hr.Results[0], 0) {
+								all = false
+							}
+						}
+						ok = all && len(rets) > 0
+					}
+				}
 				c.Check(ok, load.FnName(fn)+": returned marker", ret.Pos(), "a field of the receiver itself (converted), or a constant",
 					"the type-key extension is computed from the annotation ("+describeVal(v)+") instead of being the annotation: distinct annotations can yield the same marker, and errors that differ only in that annotation become equivalent for Is/IsAny and for the network mark")
 			}
